@@ -19,7 +19,7 @@ EPOCH = 1_000_000.0
 # name -> (iterations until complete, failing iteration or -1)
 # (failing iteration 100 + i: the exec function calls set_complete() and then raises in iteration i)
 COMMANDS = {"CmdA": (1, -1), "CmdB": (3, -1), "CmdC": (6, -1), "CmdD": (4, -1), "CmdF": (0, 1),
-            "CmdX": (0, 101), "CmdY": (0, 100)}
+            "CmdX": (0, 101), "CmdY": (0, 100), "CmdL": (0, -1)}       # CmdL never completes by itself
 FAILING = ("CmdF", "CmdX", "CmdY")
 OVERLAPS = [["CmdB", "CmdC"], ["CmdC", "CmdD"], ["CmdN", "CmdB"], ["CmdX", "CmdD"]]
 TAGS = ["T0", "T1", "T2"]
@@ -43,7 +43,7 @@ class _Clock:
 
 
 class Run:
-    def __init__(self, pcode: str, dt: float = 0.125, failing: bool = True):
+    def __init__(self, pcode: str, dt: float = 0.125, failing: bool = True, stop_fault: bool = False):
         from openpectus.engine.engine import Engine, EngineTiming
         from openpectus.lang.exec.clock import WallClock
         from openpectus.lang.exec.events import EventListener
@@ -136,6 +136,13 @@ class Run:
                 run.stops.append(snap)
         self._l = L()
         self.engine.emitter.add_listener(self._l)
+        if stop_fault:
+            # fault injection at the listener level: a listener whose on_stop raises (as the archiver's does when two
+            # runs end within one second), registered BEFORE the UOD tags and the run-log consumer
+            class Faulty(EventListener):
+                def on_stop(self_inner):
+                    raise FileExistsError("injected: on_stop of another listener fails")
+            self.engine.emitter._listeners.insert(0, Faulty())
         self.engine.execute_control_command_from_user("Start")
 
     def close(self):
@@ -294,7 +301,7 @@ def gen_snippet(rng: random.Random, failing: bool = False, bad_args: bool = Fals
 
 def execute(case: dict[str, Any]) -> dict[str, Any]:
     """Run a case; returns ticks (snapshots), request results and the raw callback log."""
-    run = Run(case["pcode"], failing=case.get("failing", True))
+    run = Run(case["pcode"], failing=case.get("failing", True), stop_fault=bool(case.get("stop_fault")))
     try:
         out: dict[str, Any] = {"ticks": [], "requests": [], "stops": run.stops, "starts": run.starts}
         sched = {int(k): v for k, v in case.get("sched", {}).items()}
@@ -321,6 +328,11 @@ def execute(case: dict[str, Any]) -> dict[str, Any]:
                         # the node's flags no longer belong to this item (a re-arm / macro call reset the node)
                         rec["node_reset"] = node is not None and (bool(node.cancelled) != item[5] or
                                                                   bool(node.forced) != item[6])
+                        # the command instance this item's request created (looked up in the harness's own list of
+                        # instances, not through the tracking): is it running right now?
+                        own = next((c for c in run._cmds if c.instance_id == item[0]), None)
+                        rec["own_running"] = own is not None and own.is_initialized() and not own.is_finalized() and \
+                            not own.is_cancelled() and not own.is_execution_complete()
                         rec.update(item=item, node_cls=type(node).__name__ if node is not None else None,
                                    has_cmd=cmd is not None,
                                    cmd_serial=next((i for i, c in enumerate(run._cmds) if c is cmd), None),
@@ -464,9 +476,17 @@ def oracle_c10(case: dict[str, Any], res: dict[str, Any]) -> list[tuple[str, str
     for ev in log:
         first_seen.setdefault(ev[3], ev[0])
     executed_ids = {ev[5] for ev in log if ev[1] in ("init", "exec")}
-    for stop in res["stops"]:
-        t = stop["tick"]
+    # the ticks in which a run ended, seen on the engine itself (not through a listener): started -> not started
+    ends = [i + 1 for i in range(1, len(res["ticks"]))
+            if res["ticks"][i - 1]["started"] and not res["ticks"][i]["started"]]
+    delivered = {stop["tick"]: stop for stop in res["stops"]}
+    for t in sorted(set(ends) | set(delivered)):
+        stop = delivered.get(t)
         snap = res["ticks"][t - 1]
+        if stop is None:
+            # the consumer of the final run log was not called (whatever other listeners did in their on_stop)
+            out.append(("final-runlog-not-delivered", f"tick {t}: the run ended, no on_stop reached the run-log listener"))
+            stop = {"tick": t, "lines": []}
         if snap["instances"]:
             # instances that never had a callback (created for a request with rejected arguments): own signature
             ran = {ev[2] for ev in log if ev[0] <= t}
@@ -506,9 +526,13 @@ def oracle_c10(case: dict[str, Any], res: dict[str, Any]) -> list[tuple[str, str
                             f"tick {ev[0]}: {ev[2]} #{ev[3]} executes after the run ended at tick {t}"))
                 break
     # Restart: the new run is not paused or on hold (nothing of the old run's Pause / Hold / error pause is left)
+    restarts = [q["tick"] for q in res["requests"] if q["op"] == ["user", "Restart"] and q.get("result") == "ok"]
     for ts in res.get("start_ticks", [])[1:]:
         snap = res["ticks"][ts - 1] if 0 < ts <= len(res["ticks"]) else None
-        if snap is not None and snap["raised"] is None and (snap["paused"] or snap["holding"]):
+        # (a run begun by Restart — three ticks after the request — in a tick in which no command of the user ran:
+        #  such a command can fail and pause the new run at once)
+        if snap is not None and snap["raised"] is None and (snap["paused"] or snap["holding"]) and \
+                not snap["events"] and any(ts - 3 <= q <= ts for q in restarts):
             out.append(("restarted-run-begins-paused",
                         f"tick {ts}: the run begun by Restart is {'paused' if snap['paused'] else 'on hold'}"))
     # Restart: new run id, method from its first line
@@ -600,7 +624,12 @@ def oracle_c12(case: dict[str, Any], res: dict[str, Any]) -> list[tuple[str, str
                 out.append((f"rejected-{op}-changed-state:{site}", what))
             continue
         if r["result"] != "ok":
-            continue                       # offered but refused: the property does not speak about it
+            # offered and refused.  For a UOD command that is running (its own instance, found without the help of
+            # the tracking) the offer must be honoured: "requests take effect exactly as offered"
+            if cls == "UodCommandNode" and r.get("own_running"):
+                later = ":later-invocation" if r.get("invocations", 1) > 1 else ""
+                out.append((f"offered-{op}-rejected:uod-command{later}", what + f" was rejected ({r['result']})"))
+            continue                       # other offered-but-refused requests: the property does not speak about them
         if op == "cancel":
             if cls == "UodCommandNode":
                 ser = r.get("cmd_serial")
